@@ -168,6 +168,21 @@ CLAIMED = {
                             "The clause that the rises are those of the pin and height of the nominal peak rests on C15."),
         technique="Lean 4 proof (linarith/nlinarith over traced formula, abstract sqrt) + oracle on the real function",
         design="5/C19"),
+    "C20": dict(
+        text=("Lean theorems over any ordered field about the grouping / redistribution model: at every cut-off the groups "
+              "concatenate to the sorted parameter list (each assembly in exactly one group, groups contiguous in the order, "
+              "none empty, at most as many groups as assemblies); with the corrected final test the adaptive loop returns "
+              "normally only with exactly the requested number of groups; one redistribution update conserves the total "
+              "flow exactly for any group factors and limit; every group but the last respects the pressure-drop flow "
+              "limit, and the last one provably need not (counter-example).  The model reproduces the real _group "
+              "(sizes and error/ok outcome) on generated lists incl. ties, and the property clauses are evaluated on the "
+              "real _group and distribute."),
+        note=COMMON_NOTE + ("T3 hand model + differential correspondence on Orificing instances made with __new__.  "
+                            "Partial: the pressure-drop clause for the last group does not hold in the model (and is "
+                            "reported as an assumption, not as a violation, because distribute() itself stops with an "
+                            "error when several groups are limited); regrouping histories are not modelled."),
+        technique="Lean 4 proof (fold invariant, loop induction) over hand model + differential correspondence",
+        design="5/C20"),
 }
 
 REASONS_PENDING = "check not built yet in this session (work in progress, see DESIGN.md section 12)"
